@@ -61,7 +61,13 @@ def rule_view_defs(ctx):
     efd = A.get_fn(ctx.files, UTILS, "State::enabled_fields_data")
     t = A.fn_text(efd)
     ctx.instance("enabled_fields_data:members")
-    if "field_idents.iter().map(|ident|quote!(self.#ident)).collect()" not in t:
+    mem_ok = "field_idents.iter().map(|ident|quote!(self.#ident)).collect()" in t
+    if not mem_ok:
+        # the same template with `self` hoisted (`#receiver.#ident`)
+        mem_ok = A.wsearch(t, "field_idents.iter().map(|ident|quote!(#receiver.#ident)).collect()") is not None and any(
+            T.ir_text(T.compose(efd, tt_.ir)).replace(" ", "") == "self.#ident" for tt_ in T.templates_of(efd)
+        )
+    if not mem_ok:
         ctx.report("view:members", ctx.where(efd.file, efd.node), "`members` are no longer `self.#ident` for each enabled field identifier", {"text": t[:300]})
     # VIEW-CONSISTENT: the per-field vectors of MultiFieldData are parallel arrays over the *enabled* fields
     lit = next((x for x, _ in A.find(efd.block, "Expr::Struct") if A.path_last(x["path"]) == "MultiFieldData"), None)
@@ -232,8 +238,41 @@ def rule_error_selection(ctx):
         )
     t = A.fn_text(re_fn)
     ctx.instance("render_enum:fallthrough")
-    if "if !match_arms.is_empty()&&match_arms.len()<state.variants.len(){match_arms.push(quote!(_=>#unmatched))}" not in t:
-        ctx.report("errsel:fallthrough", ctx.where(f, re_fn.node), "the `_ => None` arm is no longer added exactly when fewer arms than variants exist", {})
+    # where is the wildcard arm `_ => <unmatched>` pushed, and under which condition? (closure or helper function,
+    # template written in one piece or assembled)
+    from . import reject as RJ
+
+    found = []
+    for g in [re_fn] + [h for h in A.functions(f) if h.block is not None and h is not re_fn and h.impl is None and re.search(r"\b%s\(" % re.escape(h.name), t)]:
+        wild_vars = {tt_.node["path"]["segments"][0]["ident"]["sym"] for tt_ in T.built_templates(g) if A.TTxt(T.ir_text(tt_.ir).replace(" ", "")).same("_=>#unmatched")}
+        for mc, ps in A.find(g.block, "Expr::MethodCall"):
+            if mc["method"]["sym"] != "push" or not mc["args"]:
+                continue
+            a = mc["args"][0]
+            toks = T._quote_tokens(a, g)
+            is_wild = toks is not None and A.TTxt(T.ir_text(T.compose(g, T.to_ir(toks))).replace(" ", "")).same("_=>#unmatched")
+            if not is_wild and A.kind(a) == "Expr::Path" and A.path_str(a) in wild_vars:
+                is_wild = True
+            if not is_wild:
+                continue
+            chain = RJ.guard_chain(g, mc, ps, RJ._lets(g))
+            cond = chain[-1] if chain else ""
+            m_ = re.fullmatch(r"if !\((\w+)\.is_empty\(\)\)&&\1\.len\(\)<(.+)", cond)
+            total = m_.group(2) if m_ else None
+            ok_total = False
+            if total is not None:
+                if re.fullmatch(r"\w+\.variants\.len\(\)", total):
+                    ok_total = True
+                elif re.fullmatch(r"\w+", total) and g is not re_fn:
+                    # a parameter of the helper: every call must hand over the number of *all* variants
+                    prm = [A.pat_idents(p_["0"]["pat"]) for p_ in g.node["sig"]["inputs"] if A.kind(p_) == "FnArg::Typed"]
+                    idx = next((i for i, x in enumerate(prm) if x == [total]), None)
+                    calls = [c for c, _ in A.find(re_fn.block, "Expr::Call") if A.kind(c["func"]) == "Expr::Path" and A.path_str(c["func"]) == g.name]
+                    lets_ = RJ._lets(re_fn)
+                    ok_total = idx is not None and bool(calls) and all(re.fullmatch(r"\(?\w+\.variants\.len\(\)\)?", RJ._inline(A.render(c["args"][idx]), lets_)) for c in calls)
+            found.append((cond, ok_total))
+    if len(found) != 1 or not found[0][1]:
+        ctx.report("errsel:fallthrough", ctx.where(f, re_fn.node), f"the `_ => None` arm is no longer added exactly when fewer arms than (all) variants exist (pushed under {[c for c, _ in found]})", {})
     # struct path: members[source]; as_dyn_error on the selected expression only
     rs = A.get_fn(ctx.files, ERR, "render_some")
     ts = T.templates_both(rs)
